@@ -187,6 +187,11 @@ class Sim(object):
         # buggify: a runnable task may be descheduled for a long (virtual) while at a scheduling point
         self.p_stall = (0.0, 0.0, 0.01, 0.04)[d(4, kind="p_stall")]
         self.stall_budget = 4
+        # clock fault: the wall clock (time.time, file timestamps) jumps once - a suspend/resume, an NTP step, a VM
+        # migration - while the monotonic clock and all timeouts are unaffected
+        self.wall_offset = 0.0
+        self.p_clock_jump = (0.0, 0.0, 0.0, 0.02)[d(4, kind="p_clock_jump")]
+        self.jump_budget = 1
         self._pct_changes = ()
         if self.strategy == "pct":
             k = d(4, kind="pct_k")
@@ -242,6 +247,9 @@ class Sim(object):
         # temporary / scratch names built around a tile name (".tmp-<pid>-<seq>-1_0.fits", "1_0.fits.part") carry
         # counters and ids that may differ between two executions of the same schedule: keep the tile name, mask the rest
         head, _, base = path.rpartition("/")
+        if ".break." in base:           # filelock's stale-lock breaking renames to <lock>.break.<pid>.<random token>
+            base = base.split(".break.")[0] + ".break.#"
+            path = (head + "/" + base) if head else base
         m = _TILE_SUFFIX.search(base)
         if m is not None and m.start() > 0:
             base = _DIGITS.sub("#", base[:m.start()]) + base[m.start():]
@@ -260,6 +268,7 @@ class Sim(object):
             self.faults_stopped_at = (self.step, self.now)
             self.p_early = 0.0
             self.p_stall = 0.0
+            self.p_clock_jump = 0.0
 
     # -- task management ---------------------------------------------------
 
@@ -346,6 +355,13 @@ class Sim(object):
                 t.waiting_op = "stalled"
                 self._schedule_next(t)
                 return
+        if self.p_clock_jump > 0.0 and self.jump_budget > 0 and self.faults_stopped_at is None:
+            if self.draw(2, p0=1.0 - self.p_clock_jump, kind="clock_jump") == 1:
+                self.jump_budget -= 1
+                jump = (7 * 3600.0 + 5.0, 2 * 86400.0, -3600.0)[self.draw(3, kind="clock_jump_by")]
+                self.wall_offset += jump
+                self.fault("wall_clock_jump")
+                self.log(t.name, "wall clock jumps by %.0fs" % jump)
         self._schedule_next(t)
 
     def block_until(self, op, pred, timeout=None):
